@@ -1558,6 +1558,11 @@ func (c *codegen) Visit(node ast.Node) ast.Visitor {
 
 		args := transformArgs(f, n.Fun, isBuiltin, n.Args)
 
+		if isFuncValue {
+			// The calls in the expression that gives the function come
+			// before the ones in the arguments.
+			ast.Walk(c, n.Fun)
+		}
 		// Handle the arguments
 		for _, arg := range args {
 			ast.Walk(c, arg)
@@ -1610,7 +1615,8 @@ func (c *codegen) Visit(node ast.Node) ast.Visitor {
 				emit.Opcodes(c.prog.BinWriter, opcode.CALLA)
 			}
 		case isFuncValue:
-			ast.Walk(c, n.Fun)
+			// The function value is below the arguments.
+			c.emitRoll(numArgs)
 			emit.Opcodes(c.prog.BinWriter, opcode.CALLA)
 		case isSyscall(f):
 			c.convertSyscall(f, n)
@@ -2327,6 +2333,20 @@ func (c *codegen) emitReverse(num int) {
 	default:
 		emit.Int(c.prog.BinWriter, int64(num))
 		emit.Opcodes(c.prog.BinWriter, opcode.REVERSEN)
+	}
+}
+
+// emitRoll moves the item with the given depth to the top of the stack.
+func (c *codegen) emitRoll(depth int) {
+	switch depth {
+	case 0:
+	case 1:
+		emit.Opcodes(c.prog.BinWriter, opcode.SWAP)
+	case 2:
+		emit.Opcodes(c.prog.BinWriter, opcode.ROT)
+	default:
+		emit.Int(c.prog.BinWriter, int64(depth))
+		emit.Opcodes(c.prog.BinWriter, opcode.ROLL)
 	}
 }
 
